@@ -6,6 +6,8 @@
  *                    L<int> length pin, V validate lead, R read lead, H read header
  *                    after a refused call zck_clear_error() is called (as a caller would); 'x' marks a context whose
  *                    error could not be cleared
+ *   alt <blob>       a second file; the op W replaces the bytes behind the descriptor with it and seeks to 0 (the file
+ *                    changed between validating the lead and reading it)
  *   dsub type=<t> digest=<hex of ASCII digest> pos=<p>
  *                    one case: for every byte value v the digest string with position p := v is pinned after the
  *                    type; then the lead is read
@@ -15,7 +17,7 @@
 #include "drv.h"
 
 typedef struct { char kind; char *ops; int type; blob digest; int pos; } pcase;
-typedef struct { blob base; pcase *cases; int n; } pctx;
+typedef struct { blob base, alt; pcase *cases; int n; } pctx;
 
 static zckCtx *fresh(int fd) {
     real_lseek(fd, 0, SEEK_SET);
@@ -61,6 +63,12 @@ static void run_one(int idx, FILE *out, void *vctx) {
                 blob_free(&s);
                 break;
             }
+            case 'W':
+                if(!c->alt.n) die("pin: W without alt");
+                if(ftruncate(fd, 0) != 0 || pwrite(fd, c->alt.p, c->alt.n, 0) != (ssize_t)c->alt.n) die("pin: rewrite");
+                real_lseek(fd, 0, SEEK_SET);
+                r = 1;
+                break;
             case 'V': r = zck_validate_lead(zck); break;
             case 'R': r = zck_read_lead(zck); break;
             case 'H': r = zck_read_header(zck); break;
@@ -85,6 +93,7 @@ int cmd_pin(FILE *job, FILE *out) {
         char **t = split_ws(line, &n);
         if(n == 0) { free(t); free(line); continue; }
         if(!strcmp(t[0], "base")) c.base = blob_arg(t[1]);
+        else if(!strcmp(t[0], "alt")) c.alt = blob_arg(t[1]);
         else {
             if(c.n >= cap) { cap = cap ? cap * 2 : 1024; c.cases = realloc(c.cases, cap * sizeof *c.cases); }
             pcase k;
